@@ -126,9 +126,8 @@ class Geometry:
                 )
 
         else:
-            # Scalar case.
-            if not all([i == j for i, j in zip(fetched_shape, self.num_voxels)]):
-                self.cached_voxel_volume = self.voxel_volume * scaling
+            # Scalar case. Always rescale (also when returning to the native resolution).
+            self.cached_voxel_volume = self.voxel_volume * scaling
 
         # ! ---- Perform spatial integration
         if isinstance(data, np.ndarray):
